@@ -84,6 +84,7 @@ ASSUMPTIONS = [
 
 ALLOPS = OPNAMES + ['u']              # the 13 operators
 TOL = Fraction(1, 10 ** 9)
+REL_TOL = Fraction(1, 10 ** 12)         # stream 'tiny' (sums of same-sign terms, products, quotients: no cancellation)
 MAG_LIMIT = 10 ** 7                   # sampled trees: largest exact intermediate value generated
 FLOAT_LIMIT = 10 ** 300               # every stream: beyond it doubles overflow
 EXP_LIMIT = 400                       # every stream: largest exponent generated
@@ -204,12 +205,14 @@ def real_eval_chunk(job):
 
 # ------------------------------------------------------------------------------------------ comparison
 
-def meets_spec(spec, real):
+def meets_spec(spec, real, relative=False):
     if spec.startswith('F:'):
         q = un_frac(spec[2:])
         if real.startswith('I:'):
             return Fraction(int(real[2:])) == q
         if real.startswith('F:'):
+            if relative:        # streams without cancellation: every float operation is exact to half an ulp
+                return abs(un_frac(real[2:]) - q) <= REL_TOL * abs(q)
             return abs(un_frac(real[2:]) - q) <= TOL * max(1, abs(q))
         return False
     return spec == real
@@ -479,7 +482,7 @@ class Checker:
             res.count('outside_domain:rounding-sensitive')
         else:
             res.count('outcome:' + kind_of(spec.replace('F:', 'I:', 1)))
-        if compared and not meets_spec(spec, real):
+        if compared and not meets_spec(spec, real, relative=(stream == 'tiny')):
             if real.startswith('X:'):
                 what = 'evaluating an operator formula raised ' + real[2:]
             elif spec.startswith('E:'):
@@ -799,6 +802,45 @@ def power_order_cases(ctx, res, chk):
             chk.drift({'kind': 'value', 'stream': 'power-order', 'formula': t, 'impl_model': impl, 'real': real})
 
 
+def user_spellings(ctx, res, chk):
+    """numeric literals as a USER may write them in a formula given to read_and_parse_dict — outside the form Excel
+    stores (Spec.C02.NumLit wants digits on both sides of the point and a normalised mantissa), hence outside the
+    theorems; still plain / percent / scientific numerals of the statement.  Oracle: exact decimal arithmetic;
+    the Lean model is compared too (drift).  Not included: a scientific literal whose mantissa is not d[.ddd]
+    (`.5E+1`, `5.E-1`, `12E+3`): the tokenizer only glues the normalised form, Excel never stores another."""
+    from decimal import Decimal
+    env = ENVS[0]
+    a1 = Fraction(dict(env)['A1'])
+    nums = ['.5', '5.', '.25', '0.5', '.25%', '5.%', '.5%', '01.50', '007', '1e2', '1E2', '1.5e+2', '1E+02', '1e-2',
+            '2.50E-3', '.125', '10.', '0.', '.0']
+    forms, wants = [], []
+    for n in nums:
+        q = Fraction(Decimal(n.rstrip('%')))
+        if n.endswith('%'):
+            q /= 100
+        for f, w in ((f'={n}+1', q + 1), (f'=2*{n}', 2 * q), (f'=-{n}', -q), (f'={n}^2', q * q), (f'=A1+{n}', a1 + q),
+                     (f'={n}', q), (f'=({n})/4', q / 4), (f'= {n} - {n}', Fraction(0)), (f'={n}>=0', True)):
+            forms.append(f); wants.append(w)
+    resp = ctx.driver.batch(['C01\tevaltext\t%s\t%s' % (cps(t), env_wire(env)) for t in forms])
+    for t, w, r in zip(forms, wants, resp):
+        impl = parse_kv(r).get('impl', '?')
+        real = real_eval_one(env, t)
+        res.evaluations += 1
+        res.count('stream:user-spellings')
+        res.nontrivial.add(('user-spelling', t))
+        v = common.num_value(real)
+        if isinstance(w, bool):
+            ok = real == ('B:1' if w else 'B:0')
+        else:
+            ok = v is not None and abs(v - w) <= REL_TOL * max(abs(w), Fraction(1, 10 ** 300))
+        if not ok:
+            chk.violation({'what': 'a formula with a numeric literal evaluated to a value other than the one the literal denotes',
+                           'input': {'formula': t, 'cells': {'%s!%s' % (SHEET, a): x for a, x in env}, 'stream': 'user-spellings'},
+                           'expected': str(w), 'got': real})
+        elif not same_outcome(impl, real):
+            chk.drift({'kind': 'value', 'stream': 'user-spellings', 'formula': t, 'impl_model': impl, 'real': real})
+
+
 def d3_witness(ctx, res, chk):
     """known finding D3: `)%` and `ref%` are folded into `* 0.01` (outside the generated grammar)"""
     env = ENVS[0]
@@ -850,6 +892,26 @@ def run(ctx):
         if 'expr' in c:
             chk.add('regression', int(c.get('seed', 0)), parse_wire(c['expr']),
                     env_of_cells(c.get('cells', {})) or E1)
+    chk.flush()
+
+    # 1b. tiny and huge magnitudes: sums of SAME-SIGN terms, products, quotients and powers of literals in
+    # scientific notation / of tiny cell values — no cancellation, so the float result is the exact value to a few
+    # ulp and is compared with a RELATIVE tolerance (an absolute one would accept 0 for 1.1E-16)
+    ET = (('A1', 2e-9), ('B1', 3e-9), ('C1', 1e-18), ('D1', 1e-20))
+    t8, t9, t16, t17, t18 = (N('1', None, '-%d' % k) for k in (8, 9, 16, 17, 18))
+    t10, u10, big = N('1', '23456789', '-10'), N('1', None, '-10'), N('1', None, '+16')
+    A, Bc, C, D = CELLS
+    tiny = [mkB('add', mkB('mul', t8, t8), t17), mkB('add', t16, t16),
+            mkB('div', N('1'), P(mkB('add', mkB('pow', t9, N('2')), t18))),
+            mkB('add', mkB('mul', A, Bc), C), mkB('add', t10, u10), mkB('sub', mkU(t16), t16),
+            mkB('add', mkB('add', D, D), D), mkB('mul', P(mkB('add', t16, t16)), big), mkB('add', C, D),
+            mkB('sub', mkU(C), D), mkB('add', mkB('div', C, N('3')), D), mkB('add', N('0', '0001', pct=True), t8),
+            mkB('mul', P(mkB('add', A, Bc)), P(mkB('add', C, D))), mkB('div', P(mkB('add', C, D)), P(mkB('add', A, Bc))),
+            mkB('add', mkB('pow', N('1', pct=True), N('8')), t17), mkB('add', N('1', None, '-300'), N('2', None, '-300')),
+            mkB('sub', N('1', None, '+300'), mkU(N('2', None, '+299')))]
+    for e in tiny:
+        for seed in (0, 1, rseed()):
+            chk.add('tiny', seed, e, ET)
     chk.flush()
 
     # 2. every ordered pair of the 13 operators, both shapes (exhaustive)
@@ -977,6 +1039,7 @@ def run(ctx):
     # 6. known finding D3
     d3_witness(ctx, res, chk)
     power_order_cases(ctx, res, chk)
+    user_spellings(ctx, res, chk)
     chk.finish()
 
     res.rule = (
